@@ -376,6 +376,34 @@ def x_rules(p: Project, rep: Report):
             cs = {chr(i) for i in range(128)} - {chr(first[1])}
     ok = cs is not None and "<" not in cs and {"&", ">", "a", " ", "]"} <= cs
     rep.check("X-R4", "regex:text-class", ok, "the data class is not 'everything but <'" if not ok else "", r.where)
+    # the tail group: whatever follows an end tag up to the next '<' - ALL of it, from its first character, so that
+    # feed() can refuse it; a class that leaves characters out lets finditer() skip the run silently
+    titems, _ = r.find_group("tail")
+    if titems is not None:
+        tit = list(titems)
+        full = {chr(i) for i in range(128)} - {"<"}
+        tok, twhy = None, ""
+        if len(tit) == 1 and tit[0][0] in (c.MAX_REPEAT, c.MIN_REPEAT):
+            inner_ = list(tit[0][1][2])
+            first = inner_[0] if len(inner_) == 1 else None
+            tcs = None
+            if first is not None and first[0] is c.IN:
+                tcs = rx.charset(first[1])
+            elif first is not None and first[0] is c.NOT_LITERAL:
+                tcs = {chr(i) for i in range(128)} - {chr(first[1])}
+            if tcs is not None:
+                tok = tcs == full and tit[0][1][1] is c.MAXREPEAT
+                twhy = f"the tail class leaves out {sorted(full - tcs)[:6]}" if tcs != full else "the tail run is bounded"
+        elif tit:
+            # a sequence: the FIRST item decides which runs are seen at all
+            f0 = tit[0]
+            tcs = rx.charset(f0[1]) if f0[0] is c.IN else ({chr(i) for i in range(128)} - {chr(f0[1])} if f0[0] is c.NOT_LITERAL else None)
+            if tcs is not None and tcs != full:
+                tok, twhy = False, f"a tail must begin with one of a class that leaves out {[repr(x) for x in sorted(full - tcs)[:6]]}"
+        if tok is None:
+            rep.note("X-R4 undecided: shape of the tail group not recognised")
+        else:
+            rep.check("X-R4", "regex:tail-class", tok, f"{twhy}: text that follows an end tag after such characters (e.g. on the next line) is not matched by any group, finditer() skips it, and the document is accepted with the stray text dropped" if not tok else "", r.where)
     import re as _re
     from . import paths as PT
     from .flat import flat
